@@ -278,12 +278,12 @@ func (w *worker[T, JobType]) processNextJob() error {
 		return ErrFailedToCastJob
 	}
 
-	if j.IsClosed() {
+	// a job cancelled before this point is skipped; one cancelled after it can no longer be closed
+	if !j.claim() {
 		return nil
 	}
 
 	w.curProcessing.Add(1)
-	j.changeStatus(processing)
 	j.setAckId(ackId)
 
 	// then job will be process by the processSingleJob function inside spawnWorker
@@ -332,7 +332,8 @@ func (w *worker[T, JobType]) initPoolNode() *linkedlist.Node[pool.Node[JobType]]
 		w.workerFunc(j)
 
 		j.changeStatus(finished)
-		if err := j.Close(); err != nil {
+		// the handle may have been closed by its owner right after it finished; that is not an error
+		if err := j.Close(); err != nil && !errors.Is(err, ErrJobAlreadyClosed) {
 			w.sendError(err)
 		}
 		w.freePoolNode(node)
